@@ -225,6 +225,10 @@ def vertex_face_indices(vertex_count, faces, faces_sparse):
       Array padded with -1 in each row for all vertices with fewer
       face indices than the max number of face indices.
     """
+    if len(faces) == 0:
+        # no faces: every vertex has an empty (all padding) row
+        return np.zeros((vertex_count, 0), dtype=np.int64)
+
     # Create 2D array with row for each vertex and
     # length of max number of faces for a vertex
     try:
